@@ -434,13 +434,29 @@ Definition C11_written_when_different (c : ccfg) (parent : json) (evs : list ev)
       let sent := jget "parent" (obj_map body) in
       let want := desired_status sent (hr_status r) in
       let pev := parent_events c parent (after_hook evs) in
-      if existsb (is_status_write c) pev then None else
+      match rev (filter (is_status_write c) pev) with
+      | last :: earlier =>
+          (* the sync ended well although its last status write was refused: fine when the parent is gone, or
+             after the conflict retries are used up (the next event brings the parent back); nothing else *)
+          if accepted last then None else
+          match e_ans last with
+          | AFail ENotFound | AFail EGone => None
+          | AFail EConflict =>
+              (* a conflict is retried on a fresh read: the refused write is not the last word on the parent *)
+              match earlier, rev pev with
+              | [], e' :: _ => if is_status_write c e' then Some "status-conflict-not-retried" else None
+              | _, _ => None
+              end
+          | _ => Some "failed-status-write-reported-as-success"
+          end
+      | [] =>
       match rev (filter (fun e => match is_api e with Some q => verb_eqb (q_verb q) VGet | None => false end) pev) with
       | g :: _ => match e_ans g with
                   | AObj cur => if String.eqb (get_uid cur) (get_uid parent) && negb (jeqb (jget "status" (obj_map cur)) want)
                                 then Some "status-differs-from-hook-status-but-not-written" else None
                   | _ => None end
       | [] => None
+      end
       end
   | _, _ => None
   end.
@@ -663,6 +679,8 @@ Definition C12_round (c : ccfg) (parent : json) (key : string) (evs : list ev) (
       | None =>
           (* only benign races after a clean prelude: not an error *)
           if status_phase_seen c parent evs && forallb accepted (before_hook evs) &&
+             (* the hook was reached (a parent refused before that - an unusable selector - is an error of its own) *)
+             negb (match hook_events evs with [] => true | _ => false end) &&
              (* a finalized answer puts the finalizer removal between the hook and the status write: a parent
                 that is gone at that point is reported (the next sync finds nothing to do); not judged here *)
              negb (match round_hook evs with Some (_, _, hr) => hr_finalized hr | None => false end) &&
